@@ -230,7 +230,37 @@ def _c12():
                'pamqp.body.ContentBody.marshal', 'pamqp.header.ProtocolHeader.marshal', 'pamqp.heartbeat.Heartbeat.marshal'])
 
 
+def _c16():
+    class_c, mapping_c, mf = _names()
+    return (class_c.names('init') + ['pamqp.commands.Basic.Properties.__init__', CHN + '__init__',
+                                     'pamqp.body.ContentBody.__init__', 'pamqp.header.ProtocolHeader.__init__']
+            + [DEC + 'embedded_value', DEC + 'field_table', DEC + 'field_array']
+            + [(n, {'grammar-valid-arguments'}) for n in class_c.names('unmarshal')]
+            + [(n, {'method'}) for n in mf.names('unmarshal_method_frame')[:-1]]
+            + [(FRM + '_unmarshal_header_frame', {'content-header'}), FRM + '_unmarshal_body_frame',
+               FRM + '_unmarshal_protocol_header_frame', (FRM + 'unmarshal', UNMARSHAL_RETURNS)]
+            + mf.names('unmarshal_g') + [FRM + 'unmarshal(g)[ContentHeader]']
+            + [ENC + 'field_array', (ENC + 'field_table', TABLE_CLAUSES), ENC + 'encode_table_value',
+               ENC + 'table_integer', ENC + 'support_deprecated_rabbitmq']
+            + class_c.names('marshal') + [BPN + 'marshal', CHN + 'marshal', BPN + 'unmarshal', CHN + 'unmarshal'])
+
+
 PROPS = {
+    'C16': PropSpec('C16', contracts=_c16(), lemmas=[L + 'c11_toggle'], floor=3000,
+                    assumptions=['history: every codec contract is a function of its arguments and the legacy switch '
+                                 '(reads), writes nothing that existed before the call (modifies-nothing, no global '
+                                 'writes except the switch setter) and returns freshly allocated containers / objects; '
+                                 'by induction over a sequential history each call then behaves as in a fresh interpreter',
+                                 'THREADS: no interleaving is explored. The family is silent on concurrency; the thread clause '
+                                 'is covered only by the sufficient condition above plus the assumption that threads share no '
+                                 'argument objects (CPython threads interact only through shared mutable objects)']),
+    'C15': PropSpec('C15', contracts=[ENC + 'timestamp', DEC + 'timestamp'], floor=30,
+                    assumptions=['A5: classification of library functions: calendar.timegm, aware datetime.timestamp(), '
+                                 'replace(tzinfo=utc), fromtimestamp(tz=utc) are host-zone independent; time.mktime, naive '
+                                 'timestamp(), fromtimestamp() without tz, astimezone() depend on LOCAL_OFFSET, which is an '
+                                 'uninterpreted function of the instant (so no proof can cancel it)',
+                                 'A3: float timestamps are exact to the whole second'],
+                    extra=lambda tier, rng: __import__('props.bounded', fromlist=['x']).time_zones('C15', tier, rng)),
     'C03': PropSpec('C03', contracts=_c03(), lemmas=[L + 'c03_roundtrip'], floor=1000,
                     assumptions=['containers: the composition dec(enc(d)) == norm_value(d) of the verified encoder and decoder '
                                  'contracts is a specification-level induction, taken as an axiom in the lemma and exercised by the '
